@@ -237,15 +237,20 @@ func (c *c10ctx) ruleR1() {
 			if c.allImpls(in, func(f *ssa.Function) bool { return c.stateStores(f)[v] }) {
 				return true
 			}
-			// a closure of the start function itself (deferred clean-up): look at the calls it makes
+			// a closure of the start function itself (deferred clean-up) or a module helper it
+			// calls (failStart(ds, err)): look at the calls it makes; in a helper the call must
+			// run on every path through it
 			for _, cal := range p.callees(in) {
-				if cal.Parent() != fn {
+				closure := cal.Parent() == fn
+				if !closure && !isModuleFn(cal) {
 					continue
 				}
 				found := false
 				Instrs(cal, func(x ssa.Instruction) {
 					if CallOf(x) != nil && c.allImpls(x, func(f *ssa.Function) bool { return c.stateStores(f)[v] }) {
-						found = true
+						if closure || alwaysExecutes(x) {
+							found = true
+						}
 					}
 				})
 				if found {
